@@ -76,6 +76,7 @@ func (refmux) Generate(r *core.PRNG, tier string, idx int64) any {
 			cfg.PMT = 1
 		}
 	}
+	cfg.SplitPAT = cfg.PMT >= 2 && r.Chance(1, 4)
 	if idx%300 == 9 && cfg.ES > 0 {
 		cfg.HugePES = true // a unit of more than a thousand packets
 	}
